@@ -11,16 +11,19 @@
 import Nuts.Driver.Common
 import Nuts.Driver.ListDS
 import Nuts.Driver.DB
+import Nuts.Driver.Codec
 open Nuts Nuts.Driver
 
 inductive SuiteSt where
   | none
   | listDS (s : ListSuite.St)
   | db (s : DBSuite.St)
+  | codec
 
 def freshSuite (name : String) : SuiteSt :=
   match name with
   | "list-ds" => .listDS {}
+  | "codec" => .codec
   | _ => if name.startsWith "db" then .db {} else .none
 
 def stepSuite (s : SuiteSt) (cmd impl : String) : SuiteSt × Verdict :=
@@ -28,6 +31,7 @@ def stepSuite (s : SuiteSt) (cmd impl : String) : SuiteSt × Verdict :=
   | .none => (s, { model := "no-suite", specOk := none })
   | .listDS st => let (st', v) := ListSuite.step st cmd impl; (.listDS st', v)
   | .db st => let (st', v) := DBSuite.step st cmd impl; (.db st', v)
+  | .codec => (s, (CodecSuite.step () cmd impl).2)
 
 def renderVerdict (lineno : Nat) (cmd impl : String) (v : Verdict) : String :=
   let m := if v.model == impl then "M" else "m"
